@@ -1,4 +1,5 @@
 import DW.Lemmas.Validate
+import DW.Lemmas.Reject
 import DW.Gen
 
 /-!
@@ -104,5 +105,181 @@ theorem C15_item_attr_shape (c : Cfg) (raw : RawItem) (pre post : List RawAttr) 
   obtain ⟨e, he⟩ := steps_error c raw.kind pre post a hpre hstep {}
   refine ⟨e, ?_⟩
   simp [Input.fromInput, ItemAttr.fromAttrs, hattrs, he, bind, Except.bind]
+
+end DW
+
+namespace DW
+
+/-!
+## Rejection wherever the offending option stands
+
+The following theorems have the form "an item containing X is rejected", for
+any surrounding attributes, fields, variants, trait lists and configurations
+(`Fails x` = `x` returns an error): either an earlier check fails first or the
+validation reaches X and fails there.
+-/
+
+/-- **Repeated `skip`.** A bare `skip` together with any other `skip` option on
+the same field, in one attribute or spread over several, in either order
+(`skip, skip`, `skip, skip(Debug)`, `skip(Debug), skip`, two attributes ..). -/
+theorem C15_skip_repeated (c : Cfg) (raw : RawItem) (v : RawVariant) (f : RawField)
+    (hv : v ∈ raw.variants) (hf : f ∈ v.fields) (hs : v.shape ≠ .unit)
+    (pre mid post : List Meta) (m1 m2 : Meta)
+    (hflat : flatMetas f.attrs = some (pre ++ m1 :: (mid ++ m2 :: post)))
+    (h1 : m1.isSkipOpt) (h2 : m2.isSkipOpt) (hb : (∃ p, m1 = .path p) ∨ (∃ p, m2 = .path p)) :
+    Fails (Input.fromInput c raw) := by
+  apply Input.fromInput_fails_of_field c raw v f hv hf _ hs
+  intro dws si
+  rw [FieldAttr.fromAttrs_flat_some c dws si f.attrs _ hflat]
+  exact FieldAttr.addMetas_repeat c dws si pre mid post m1 m2 h1 h2 hb _
+
+/-- A field attribute that is not a non-empty, comma separated list of options
+(`#[derive_where]`, `#[derive_where()]`, `#[derive_where = ..]`, junk) is rejected. -/
+theorem C15_field_attr_shape (c : Cfg) (raw : RawItem) (v : RawVariant) (f : RawField)
+    (hv : v ∈ raw.variants) (hf : f ∈ v.fields) (hs : v.shape ≠ .unit) (hflat : flatMetas f.attrs = none) :
+    Fails (Input.fromInput c raw) :=
+  Input.fromInput_fails_of_field c raw v f hv hf
+    (fun dws si => FieldAttr.fromAttrs_flat_none c dws si f.attrs hflat _) hs
+
+/-- **Redundant field skip.** `skip(.., G, ..)` on a field whose parent already
+skips group `G` through `skip_inner`, and a bare `skip` under a bare
+`skip_inner`, are rejected (stated for the field's option list under any parent
+marker `si` that covers `G`; the list may contain anything else). -/
+theorem C15_skip_redundant (c : Cfg) (dws : List DeriveWhere) (si : Skip) (pre post gpre gpost : List Meta)
+    (lp p : MPath) (g : SkipGroup) (hl : lp.isIdent "skip" = true)
+    (hp : SkipGroup.fromPath c p = .ok g) (hcov : si.groupSkipped g = true) :
+    ∀ s, Fails (FieldAttr.addMetas c dws si (pre ++ .list lp true (gpre ++ .path p :: gpost) :: post) s) := by
+  apply FieldAttr.addMetas_append_error
+  intro s
+  rcases FieldAttr.addMetas_cons c dws si (.list lp true (gpre ++ .path p :: gpost)) post s with he | ⟨s', _, h⟩
+  · exact he
+  · rcases h with ⟨_, h⟩ | ⟨h, _⟩
+    · obtain ⟨e, he⟩ := Skip.addAttribute_parent c s.skip "skip" dws (some si) lp p g hp
+        (by simpa [parentCovers] using hcov) gpre gpost
+      rw [he] at h; cases h
+    · simp only [Meta.getPath] at h; rw [hl] at h; cases h
+
+theorem C15_skip_redundant_bare (c : Cfg) (dws : List DeriveWhere) (pre post : List Meta) (p : MPath)
+    (hp : p.isIdent "skip" = true) :
+    ∀ s, Fails (FieldAttr.addMetas c dws .all (pre ++ .path p :: post) s) := by
+  apply FieldAttr.addMetas_append_error
+  intro s
+  rcases FieldAttr.addMetas_cons c dws .all (.path p) post s with he | ⟨s', _, h⟩
+  · exact he
+  · rcases h with ⟨_, h⟩ | ⟨h, _⟩
+    · obtain ⟨e, he⟩ := Skip.addAttribute_bare_parent c s.skip "skip" dws p
+      rw [he] at h; cases h
+    · simp only [Meta.getPath] at h; rw [hp] at h; cases h
+
+/-- **`skip_inner` on a field-less variant** (`V`, `V()`, `V {}`) is rejected,
+wherever it stands among the variant's options and attributes. -/
+theorem C15_skip_inner_no_fields (c : Cfg) (raw : RawItem) (v : RawVariant) (hk : raw.kind = .enum_)
+    (hv : v ∈ raw.variants) (hnf : v.fields.isEmpty = true)
+    (pre post : List Meta) (m : Meta) (hm : m.getPath.isIdent "skip_inner" = true)
+    (hflat : flatMetas v.attrs = some (pre ++ m :: post)) :
+    Fails (Input.fromInput c raw) := by
+  apply Input.fromInput_fails_of_variant c raw v hv
+  · intro _ dws
+    unfold Data.fromVariant
+    refine Fails.bind_left ?_
+    rw [hnf, VariantAttr.fromAttrs_flat_some c dws true v.attrs _ hflat]
+    exact VariantAttr.addMetas_noFields c dws pre post m hm _
+  · intro h; exact absurd hk h
+  · intro h; exact absurd hk h
+
+/-- **Lifetime predicates (and unparsable entries) in a bound list** are rejected:
+`#[derive_where(Clone; 'a: 'b)]`, wherever the entry stands in the list and the
+attribute among the item's attributes. -/
+theorem C15_lifetime_bound (c : Cfg) (raw : RawItem) (pre post : List RawAttr) (es : List Elem) (gs : List GElem)
+    (hattrs : raw.attrs = pre ++ .dw (.list es (some gs)) :: post)
+    (g : RawGeneric) (hg : (∃ t, g = .lifetimePred t) ∨ (∃ t, g = .bad t)) (hmem : GElem.gen g ∈ gs) :
+    Fails (Input.fromInput c raw) := by
+  apply Input.fromInput_fails_of_attr c raw pre post _ hattrs
+  intro acc
+  apply ItemAttr.step_semi
+  rw [DeriveWhere.fromAttr_semi]
+  apply DeriveWhere.loop_fails_generics
+  apply parseGenerics_fails g _ gs hmem
+  rcases hg with ⟨t, rfl⟩ | ⟨t, rfl⟩ <;> exact ⟨_, rfl⟩
+
+/-- **Unknown, qualified, raw or wrongly parametrised traits** in a trait list with
+a `;` are rejected (`Foo`, `a::Clone`, `r#Clone`, `Clone(x)`, `Clone = 1`,
+`Zeroize(foo)`, a trait a union does not support ..): any entry on which
+`DeriveTrait::from_stream` fails, wherever it stands. -/
+theorem C15_bad_trait (c : Cfg) (raw : RawItem) (pre post : List RawAttr) (es : List Elem) (gs : List GElem)
+    (hattrs : raw.attrs = pre ++ .dw (.list es (some gs)) :: post)
+    (m : Meta) (hm : Fails (DeriveTrait.fromMeta c raw.kind m)) (hmem : Elem.ofMeta m ∈ es) :
+    Fails (Input.fromInput c raw) := by
+  apply Input.fromInput_fails_of_attr c raw pre post _ hattrs
+  intro acc
+  apply ItemAttr.step_semi
+  rw [DeriveWhere.fromAttr_semi]
+  exact DeriveWhere.loop_fails_meta c raw.kind (some gs) m hm es [] hmem
+
+/-- Instances of `C15_bad_trait`'s premise. -/
+theorem C15_bad_trait_instances (c : Cfg) (kind : ItemKind) :
+    Fails (DeriveTrait.fromMeta c kind (.path ⟨false, [⟨"Foo", false⟩]⟩)) ∧
+    Fails (DeriveTrait.fromMeta c kind (.path ⟨false, [⟨"a", false⟩, ⟨"Clone", false⟩]⟩)) ∧
+    Fails (DeriveTrait.fromMeta c kind (.path ⟨false, [⟨"Clone", true⟩]⟩)) ∧
+    Fails (DeriveTrait.fromMeta c kind (.list ⟨false, [⟨"Clone", false⟩]⟩ true [.path ⟨false, [⟨"x", false⟩]⟩])) ∧
+    Fails (DeriveTrait.fromMeta c kind (.nameValue ⟨false, [⟨"Clone", false⟩]⟩ .other)) ∧
+    Fails (DeriveTrait.fromMeta c .union_ (.path ⟨false, [⟨"Debug", false⟩]⟩)) := by
+  refine ⟨⟨.trait_, rfl⟩, ⟨.trait_, rfl⟩, ⟨.trait_, rfl⟩, ?_, ?_, ⟨.union, rfl⟩⟩
+  · cases kind <;> exact ⟨.options "Clone", rfl⟩
+  · cases kind <;> exact ⟨.optionSyntax, rfl⟩
+
+/-- **Items with nothing to derive from**: a struct without fields that is not
+marked `incomparable`. -/
+theorem C15_empty_struct (c : Cfg) (raw : RawItem) (v : RawVariant) (hk : raw.kind = .struct_)
+    (hvs : raw.variants = [v]) (hempty : v.shape = .unit ∨ v.fields = [])
+    (hinc : ∀ attr, ItemAttr.fromAttrs c raw.kind raw.attrs = .ok attr → attr.incomparable = false) :
+    Fails (Input.fromInput c raw) := by
+  unfold Input.fromInput
+  cases hattr : ItemAttr.fromAttrs c raw.kind raw.attrs with
+  | error e => exact ⟨e, rfl⟩
+  | ok attr =>
+    have hi := hinc attr hattr
+    have hb : Fails (Input.buildItem c raw attr) := by
+      simp only [Input.buildItem, hk, hvs, hi]
+      refine Fails.bind_left ?_
+      unfold Data.fromStruct
+      simp only [show (ItemKind.struct_ == ItemKind.union_) = false from rfl, Bool.false_eq_true, ↓reduceIte]
+      rcases hempty with h | h
+      · simp only [h]; exact ⟨_, rfl⟩
+      · split
+        · exact ⟨_, rfl⟩
+        · simp only [h, List.isEmpty_nil, Bool.not_false, Bool.and_self, ↓reduceIte]; exact ⟨_, rfl⟩
+    obtain ⟨e, he⟩ := hb
+    exact ⟨e, by simp [he, bind, Except.bind]⟩
+
+/-- **Nothing a plain `#[derive]` could not do** (`Error::use_case`): an attribute
+whose bound list is exactly the item's type parameters, all plain, and whose
+traits involve no skipping, no `incomparable`, no enum `Default` and no zeroize
+option is rejected. -/
+theorem C15_use_case (c : Cfg) (raw : RawItem) (attr : ItemAttr) (item : Item) (fi : Bool)
+    (hattr : ItemAttr.fromAttrs c raw.kind raw.attrs = .ok attr)
+    (hitem : Input.buildItem c raw attr = .ok (item, fi))
+    (huse : useCaseViolation c raw.generics item fi attr.deriveWheres = true) :
+    Input.fromInput c raw = .error .useCase := by
+  simp [Input.fromInput, hattr, hitem, huse, bind, Except.bind]
+
+end DW
+
+namespace DW
+
+/-- Non-vacuity of `C15_skip_repeated` / `C15_skip_inner_no_fields`: concrete attribute lists meet the premises. -/
+example :
+    let skipP : MPath := ⟨false, [⟨"skip", false⟩]⟩
+    let m1 : Meta := .list skipP true [.path ⟨false, [⟨"Debug", false⟩]⟩]
+    let m2 : Meta := .path skipP
+    flatMetas [.list [.ofMeta m1] none, .list [.ofMeta m2] none] = some ([] ++ m1 :: ([] ++ m2 :: []))
+      ∧ m1.isSkipOpt ∧ m2.isSkipOpt ∧ ((∃ p, m1 = .path p) ∨ (∃ p, m2 = .path p)) := by
+  refine ⟨rfl, rfl, rfl, Or.inr ⟨_, rfl⟩⟩
+
+example :
+    let m : Meta := .path ⟨false, [⟨"skip_inner", false⟩]⟩
+    flatMetas [.list [.ofMeta (.path ⟨false, [⟨"default", false⟩]⟩), .comma, .ofMeta m] none]
+      = some ([.path ⟨false, [⟨"default", false⟩]⟩] ++ m :: []) ∧ m.getPath.isIdent "skip_inner" = true :=
+  ⟨rfl, rfl⟩
 
 end DW
